@@ -1,6 +1,8 @@
 use crate::common::Emitter;
 pub mod c13;
 pub mod c14;
+pub mod per;
+pub mod c18;
 pub mod c19;
 
 /// run one case line (from a replay file or the corpus) against the implementation
@@ -11,6 +13,8 @@ pub fn replay(prop: &str, line: &str, em: &mut Emitter) {
         "tpkt_read" | "x224_read" => c13::run_case(&toks, em),
         "tpkt_write" | "x224_write" => c14::run_case(&toks, em),
         "blit" => c19::run_case(&toks, em),
+        "msg_wr" | "msg_rd" | "msg_rt" => c18::run_case(&toks, em),
+        op if op.starts_with("per_") => per::run_case(&toks, em),
         _ => { let _ = prop; eprintln!("unknown op {}", toks[0]); }
     }
 }
@@ -21,6 +25,7 @@ pub fn generate(prop: &str, thorough: bool, seed: u64, em: &mut Emitter) {
         "C13" => c13::generate(thorough, seed, part, em),
         "C14" => c14::generate(thorough, seed, part, em),
         "C19" => c19::generate(thorough, seed, part, em),
+        "C18" => c18::generate(thorough, seed, part, em),
         _ => { eprintln!("unknown property {}", prop); std::process::exit(2); }
     }
 }
